@@ -926,7 +926,8 @@ def run(ctx):
                            lambda c=c, key=key: replay_files([c], [], "V 0 %s " % key))
                 elif line.startswith("KT ") or line.startswith("KV "):
                     i = int(f[1]); k = bk[i]
-                    kind = k[0].split("/")[1]          # dec | hex
+                    kp = k[0].split("/")
+                    kind = kp[1] + "-" + (kp[2] if kp[2] in ("boundary", "neg") else "plain")     # dec|hex - how the spelling was chosen
                     suf = k[0].rsplit("/", 1)[1]
                     w = int.from_bytes(k[3], "little")
                     efield = (w >> 23) & 0xff if k[2] == FLOAT else (w >> 52) & 0x7ff if k[2] == DOUBLE else (w >> 64) & 0x7fff
